@@ -196,3 +196,115 @@ def shift2boolean_contract(run):
     if nret < 2:
         raise CheckerError("_shift2boolean: %d returning paths" % nret)
     run.functions.append({"file": GF, "function": "GridPoints._shift2boolean", "line": m.lineno, "sha1": mod.sha(m), "obligations": len(run.sink.obls) - n0})
+
+
+def extract_ir_grid_points_contract(run):
+    """extract_ir_grid_points(table): ir points = np.unique(table) (assumed library contract: the distinct values of the table,
+    each once), weights = histogram of the table (syntactic *histogram schema*: `w = np.zeros_like(t)`; `for gp in t: w[gp] += 1`,
+    nothing else touching w), result weights = w[ir points].
+    Lemma (three inductions, z3):  sum_j cnt(U[j], N) == N  for every table T of length N and every duplicate-free list U that
+    covers its values, with cnt(g, k) = #{i < k : T[i] == g}  --  i.e. the weights sum to the number of grid points and every grid
+    point is counted exactly once."""
+    import ast as _ast
+    from pvc.spec import RecSum, induction
+    mod = pyexec.load(GF)
+    fn = mod.funcs["extract_ir_grid_points"]
+    pref = GF + ":extract_ir_grid_points"
+    n0 = len(run.sink.obls)
+    # ---- schema match on the current text
+    body = [s_ for s_ in fn.body if not (isinstance(s_, _ast.Expr) and isinstance(s_.value, _ast.Constant))]
+    src = [_ast.unparse(s_) for s_ in body]
+    arg = fn.args.args[0].arg
+    ok = False
+    why = "statement list does not have the expected shape"
+    try:
+        loops = [s_ for s_ in body if isinstance(s_, _ast.For)]
+        assert len(loops) == 1, "exactly one loop"
+        lp = loops[0]
+        assert isinstance(lp.iter, _ast.Name) and lp.iter.id == arg and isinstance(lp.target, _ast.Name), "loop over the table itself"
+        assert len(lp.body) == 1 and isinstance(lp.body[0], _ast.AugAssign) and isinstance(lp.body[0].op, _ast.Add), "body is one +="
+        tgt = lp.body[0].target
+        assert isinstance(tgt, _ast.Subscript) and isinstance(tgt.slice, _ast.Name) and tgt.slice.id == lp.target.id, "w[gp]"
+        assert isinstance(lp.body[0].value, _ast.Constant) and lp.body[0].value.value == 1, "+= 1"
+        w = tgt.value.id
+        init = [s_ for s_ in body if isinstance(s_, _ast.Assign) and isinstance(s_.targets[0], _ast.Name) and s_.targets[0].id == w]
+        assert len(init) == 1 and _ast.unparse(init[0].value) == "np.zeros_like(%s)" % arg, "w = np.zeros_like(table)"
+        uniq = [s_ for s_ in body if isinstance(s_, _ast.Assign) and "np.unique(%s)" % arg in _ast.unparse(s_.value)]
+        assert len(uniq) == 1, "ir points = np.unique(table)"
+        u = uniq[0].targets[0].id
+        ret = [s_ for s_ in body if isinstance(s_, _ast.Return)][0]
+        names = [e.id for e in ret.value.elts]
+        assert names[0] == u, "first result is the unique values"
+        rw = [s_ for s_ in body if isinstance(s_, _ast.Assign) and isinstance(s_.targets[0], _ast.Name) and s_.targets[0].id == names[1]]
+        assert len(rw) == 1 and "%s[%s]" % (w, u) in _ast.unparse(rw[0].value), "weights result is w[ir points]"
+        def _root(t_):
+            while isinstance(t_, _ast.Subscript):
+                t_ = t_.value
+            return t_.id if isinstance(t_, _ast.Name) else None
+        writes_w = [s_ for s_ in _ast.walk(fn) if isinstance(s_, (_ast.Assign, _ast.AugAssign))
+                    and _root(s_.targets[0] if isinstance(s_, _ast.Assign) else s_.target) == w]
+        assert len(writes_w) == 2, "w is written only by its initialisation and the += 1"
+        ok = True
+        why = "matches"
+    except (AssertionError, IndexError, AttributeError) as e:
+        why = str(e) or why
+    ob = run.sink.add(pref, "schema", [], z3.BoolVal(ok), replay=lambda model: replay_extract(),
+                      meta={"label": "histogram schema: weights[g] = number of table entries equal to g, ir points = np.unique(table), result = weights[ir points] (%s)" % why})
+    # ---- lemma
+    I = z3.IntSort()
+    T = z3.Function("gm_table", I, I)
+    U = z3.Function("gm_unique", I, I)
+    J = z3.Function("gm_slot", I, I)           # Skolem function of "np.unique covers every value"
+    N, nu = z3.Ints("gm_N gm_nu")
+    i_, j_, k_ = z3.Ints("i!g j!g k!g")
+    hy = [N >= 0, nu >= 0,
+          z3.ForAll([i_], z3.Implies(z3.And(i_ >= 0, i_ < N), z3.And(J(i_) >= 0, J(i_) < nu, U[J(i_)] if False else U(J(i_)) == T(i_))), patterns=[J(i_)]),
+          z3.ForAll([j_, k_], z3.Implies(z3.And(j_ >= 0, j_ < nu, k_ >= 0, k_ < nu, j_ != k_), U(j_) != U(k_)))]
+    cnt = RecSum("gm_cnt", [I], lambda g, i: z3.If(T(i) == g, 1, 0), sort=I)                 # cnt(g, k)
+    W = RecSum("gm_W", [I], lambda k, j: cnt(U(j), k), sort=I)                                # W(k, j) = sum_{j'<j} cnt(U[j'], k)
+    E = RecSum("gm_E", [I], lambda k, j: z3.If(U(j) == T(k), 1, 0), sort=I)                   # E(k, j) = #{j'<j : U[j'] == T[k]}
+    # R: E(k, j) = [J(k) < j]   for 0 <= k < N, 0 <= j <= nu
+    fR = induction(run.sink, pref, "exactly one slot of the unique list holds the value of grid point k", [I],
+                   lambda k, j: z3.Implies(z3.And(k >= 0, k < N, j <= nu), E(k, j) == z3.If(J(k) < j, 1, 0)),
+                   lambda k, j: [E.zero(k), E.unfold(k, j)], hyps=hy)
+    # Q: W(k+1, j) = W(k, j) + E(k, j)   for k >= 0, 0 <= j
+    fQ = induction(run.sink, pref, "adding grid point k raises the partial weight sum by the number of matching slots", [I],
+                   lambda k, j: z3.Implies(k >= 0, W(k + 1, j) == W(k, j) + E(k, j)),
+                   lambda k, j: [W.zero(k), W.zero(k + 1), W.unfold(k, j), W.unfold(k + 1, j), E.zero(k), E.unfold(k, j), cnt.unfold(U(j), k)], hyps=hy)
+    # P: W(k, nu) = k  for 0 <= k <= N
+    fP = induction(run.sink, pref, "the weights of the unique values sum to the number of grid points seen so far", [],
+                   lambda k: z3.Implies(k <= N, W(k, nu) == k),
+                   lambda k: [fR, fQ, z3.ForAll([j_], z3.Implies(j_ >= 0, W(0, j_) == 0))], hyps=hy)
+    # base fact used above: W(0, j) = 0 (all counts of zero entries are zero)
+    induction(run.sink, pref, "no grid point seen: all partial weight sums are zero", [],
+              lambda j: W(0, j) == 0, lambda j: [W.zero(0), W.unfold(0, j), cnt.zero(U(j))], hyps=hy)
+    run.sink.add(pref, "lemma", hy + [fP], W(N, nu) == N, meta={"label": "sum of the irreducible weights == number of grid points"})
+    run.functions.append({"file": GF, "function": "extract_ir_grid_points", "line": fn.lineno, "sha1": mod.sha(fn), "obligations": len(run.sink.obls) - n0})
+    run.assumed_contracts += ["numpy.unique(t): the distinct values of t, each exactly once", "histogram schema (syntactic): after `w = zeros_like(t); for g in t: w[g] += 1`, w[g] == #{i : t[i] == g}"]
+
+
+def replay_extract():
+    from pvc import creplay
+    import json
+    code = r'''
+import json
+import numpy as np
+from phonopy.structure.grid_points import extract_ir_grid_points
+rng = np.random.default_rng(0)
+bad = None
+for trial in range(50):
+    n = int(rng.integers(1, 30))
+    t = rng.integers(0, n, size=n)
+    t = np.minimum(t, np.arange(n)).astype("int64")
+    ir, w = extract_ir_grid_points(t)
+    cnt = np.array([(t == g).sum() for g in ir])
+    if int(np.sum(w)) != n or not np.array_equal(np.sort(np.unique(t)), np.sort(ir)) or not np.array_equal(cnt, w):
+        bad = {"table": t.tolist(), "ir": np.array(ir).tolist(), "weights": np.array(w).tolist()}
+        break
+print(json.dumps({"counterexample": bad}))
+'''
+    rc, out, err = creplay.py_eval(code)
+    if rc != 0:
+        return {"reproduced": False, "reason": err[-400:]}
+    r = json.loads(out.strip().splitlines()[-1])
+    return {"reproduced": r["counterexample"] is not None, "real_code": r, "expected": "weights are the histogram of the table over its distinct values and sum to len(table)"}
